@@ -605,6 +605,9 @@ func runOrchHistory(r *prng, id int) *jOrchScenario {
 	nodes := []uint16{1, 2, 3, 4, 5, 6}
 	if r.chance(1, 3) {
 		nodes = []uint16{255, 256, 257, 513, 65280, 65535}
+	} else if r.chance(1, 3) {
+		// node identifier 0 is a legal identifier (so is party 0 under the identity map): no zero value may stand for "none"
+		nodes = []uint16{0, 1, 2, 3, 256, 65535}
 	}
 	mkMap := func() map[UniversalID]PartyID {
 		mp := map[UniversalID]PartyID{}
